@@ -63,3 +63,16 @@ func (e *baseFibStrategyEntry) GetStrategy() enc.Name {
 func (e *baseFibStrategyEntry) GetNextHops() []*FibNextHopEntry {
 	return e.nexthops
 }
+
+// snapshot returns a copy of the entry that stays valid and unchanged after
+// the table's mutex has been released.
+func (e *baseFibStrategyEntry) snapshot() *baseFibStrategyEntry {
+	nexthops := make([]*FibNextHopEntry, len(e.nexthops))
+	copy(nexthops, e.nexthops)
+	return &baseFibStrategyEntry{
+		component: e.component,
+		name:      e.name,
+		nexthops:  nexthops,
+		strategy:  e.strategy,
+	}
+}
